@@ -237,6 +237,21 @@ def r2_order(rep, facts):
         ok = bool(ob) and bool(cb) and all(any(cfg.dominates(x, y) for x in ob) for y in cb)
         kp = cfg.calls_seg('encode_key_path')
         mid = any(cfg.dominates(x, k) for x in ob for k in kp) and any(cfg.dominates(k, y) for k in kp for y in cb)
+        if not (ok and mid):
+            # the two bracket kinds may share one branch and be selected by the same flag before and after the key path: then the opening and the
+            # closing call sit under the same conditions (same expressions, same polarity), in that order around the key path
+            from .shared import control_conditions
+            hb = facts.body('toml_edit::encode::visit_table')
+            nodes = list(walk(hb['body']))
+            pos = {id(n): i for i, n in enumerate(nodes)}
+            opens = [n for n in nodes if n.get('k') == 'mcall' and n.get('name') == o]
+            closes = [n for n in nodes if n.get('k') == 'mcall' and n.get('name') == c]
+            keys = [n for n in nodes if n.get('k') in ('call', 'mcall') and any(last_seg(x) == 'encode_key_path' for x in callee_all(n))]
+            if len(opens) == 1 and len(closes) == 1 and keys:
+                co, cc = control_conditions(hb['body'], opens[0]), control_conditions(hb['body'], closes[0])
+                between = [k for k in keys if pos[id(opens[0])] < pos[id(k)] < pos[id(closes[0])]]
+                # the key path is written under a prefix of those conditions (it is shared by both bracket kinds)
+                ok = mid = co is not None and co == cc and bool(between) and all(control_conditions(hb['body'], k) == co[:len(control_conditions(hb['body'], k))] for k in between)
         rep.check(R, f'visit_table|{o}', ok and mid, f'{o} .. key path .. {c}', f'header brackets {o}/{c} are not paired around the key path', loc)
     kv = cfg.calls_seg('keyval_sep')
     ek = cfg.calls_seg('encode_key_path_ref')
@@ -391,17 +406,10 @@ def r3_header_order(rep, facts):
     sorts = [n for n in walk(b['body']) if n.get('k') == 'mcall' and (n.get('name') or '').startswith('sort')]
     ok = len(sorts) == 1 and sorts[0]['name'] in ('sort_by_key', 'sort_by', 'sort_by_cached_key', 'sort')
     rep.check(R, 'Display for DocumentMut|stable-sort', ok, f'{[s["name"] for s in sorts]}', f'tables are ordered with {[s["name"] for s in sorts]}: not a single stable sort', facts.loc(b))
-    # last_position only updated from Some(pos)
-    upd = [n for n in walk(b['body']) if n.get('k') == 'assign' and (peel(n['lhs']).get('path') or '').startswith('last_position')]
-    guarded = False
-    for n in walk(b['body']):
-        if n.get('k') == 'if' and peel(n['cond']).get('k') == 'letexpr':
-            le = peel(n['cond'])
-            if (le['pat'].get('path') or '').endswith('Option::Some') and any(x.get('k') == 'mcall' and x.get('name') == 'position' for x in walk(le['init'])):
-                if any(id(u) in [id(y) for y in walk(n['then'])] for u in upd):
-                    guarded = True
-    rep.check(R, 'Display for DocumentMut|last-position', len(upd) == 1 and guarded, 'last_position = pos only under `if let Some(pos) = t.position()`',
-              'last_position is not updated exactly under `if let Some(pos) = t.position()` (tables without position would not follow the preceding one)', facts.loc(b))
+    # position carried to tables without one
+    from .shared import position_carry
+    okp, detail, pb = position_carry(facts)
+    rep.check(R, 'Display for DocumentMut|last-position', okp, detail, f'tables without a recorded position no longer follow the table visited before them: {detail}', facts.loc(pb))
     # visit_nested_tables: callback before recursion
     cfg = cfg_of(facts, 'toml_edit::encode::visit_nested_tables')
     cb = cfg.calls(lambda n: last_seg(n) in ('call_mut', 'call', 'call_once'))
